@@ -1,5 +1,6 @@
 import TV.Proofs.WorkQueueSafety
 import TV.Proofs.WorkQueueLive
+import TV.Proofs.MonitorWQ
 /-!
 # C04 — WorkQueue runs every accepted work item exactly once
 
@@ -47,5 +48,9 @@ example : ∃ s, runActs (init 1 1) [.enqueue 1 0 false, .recv 0, .take, .enqueu
     .enqueue 1 2 false, .recv 2, .enqueue 1 3 false, .recv 3, .enqueue 1 4 false] = some s ∧
     s.disp = .fullWait ⟨3, 1, false, 3⟩ ∧ s.blocked.length = 1 ∧ s.started = [0] := by
   refine ⟨_, rfl, ?_⟩; decide
+
+/-! ### the model passes the monitor the driver applies to the implementation (no false alarm on a conforming implementation) -/
+theorem C04_model_passes_monitor (W L : Nat) (s : St) (h : Reach W L s) :
+    Mon.atMostOnce (Driver.WQ.obsOf s) = true := MonSound.atMostOnce_sound h
 
 end TV.C04
